@@ -130,7 +130,7 @@ fn check_endpoints(rec: &mut Recorder, eps: &[Endpoint; 3], case: usize, origin:
 fn verif_c06_direct() {
     let env = vlib::env();
     let mut rec = Recorder::new("C06", "verif_c06_direct");
-    let worlds = env.pick(8, 64);
+    let worlds = env.pick(16, 64);
     for case in 0..worlds {
         if !env.mine(case) {
             continue;
@@ -396,7 +396,7 @@ fn verif_c06_no_reuse_in_protocols() {
     let env = vlib::env();
     let mut rec = Recorder::new("C06", "verif_c06_no_reuse_in_protocols");
     wl::PRSS_LOG.store(true, std::sync::atomic::Ordering::SeqCst);
-    let n = env.pick(10, 60);
+    let n = env.pick(20, 60);
     for case in 0..n {
         if !env.mine(case) {
             continue;
@@ -468,7 +468,8 @@ fn verif_c06_no_reuse_in_protocols() {
             }
         }
         if stats.draws == 0 {
-            rec.inconclusive(format!("case {case} ({label}): no PRSS draw was logged"));
+            // e.g. a semi-honest shuffle of zero rows draws nothing; reach is guarded by must_see(prss_draws_checked)
+            rec.count("workloads_without_prss_draws");
         } else {
             rec.distinct(&(label.clone(), stats.distinct_keys));
             rec.seen("workloads", label.clone());
